@@ -170,6 +170,13 @@ def structural(case):
         if want is not None and g.gate_def is not want:
             # an explicit prepare_all written by the user in native mode also carries the native def
             raise Violation("bounding-definition-identity", f"[{defs}/{mode}] {g.name} uses {g.gate_def!r}, expected the {'caller-supplied' if defs == 'objects' else 'native'} definition\n--- program:\n{text}")
+    # calls of macros are LINKED to definitions (analyses follow the link, not the name): every
+    # link in the result must lead to the result's own macro table
+    from jaqalpaq.core.macro import Macro as _Macro
+
+    for g in extract.find_objects(s, lambda x: isinstance(x, GateStatement) and isinstance(x.gate_def, _Macro)):
+        if s.macros.get(g.name) is not g.gate_def:
+            raise Violation("stale-macro-link", f"a call of {g.name} in the result is linked to a definition that is not the result's macro {g.name}\n--- program:\n{text}")
     if not (s.constants == c.constants) or not (s.registers == c.registers):
         raise Violation("header-changed", f"constants/registers\n--- program:\n{text}")
     if not (s.usepulses == c.usepulses):
